@@ -444,7 +444,8 @@ def line_case(draw):
         p1 = draw(gen.probe_spec(g["n"], kinds))
         p2 = draw(gen.probe_spec(g["n"], kinds))
     return {"g": g, "nvdim": nvdim, "vdims": draw(gen.vdims_strategy(nvdim)), "seed": draw(st.integers(0, 2**31)),
-            "dtype": draw(st.sampled_from([None, "int"])), "p1": p1, "p2": p2, "npts": draw(st.integers(2, 12)),
+            "dtype": draw(st.sampled_from([None, "int"])), "p1": p1, "p2": p2,
+            "npts": draw(st.one_of(st.integers(2, 12), st.sampled_from([100, 100, 37]))),  # 100 = the documented default
             "container": draw(st.sampled_from(["tuple", "list", "array"]))}
 
 
@@ -461,7 +462,7 @@ def check_line(case):
     tag(f"ndim={nd}")
     conv = {"tuple": tuple, "list": list, "array": np.array}[case["container"]]
     try:
-        line = f.line(conv(p1), conv(p2), n=n)
+        line = f.line(conv(p1), conv(p2), n=n) if n != 100 else f.line(conv(p1), conv(p2))
     except IndexError as e:
         if nd == 1:
             raise Violation("line-1d", f"Field.line on a 1-d mesh raises IndexError: {e}") from None
